@@ -216,12 +216,31 @@ def cargoSection (name : Text) : Text :=
   | some rest => if rest.any (· == '.') then afterLast '.' rest else []   -- `[target.dependencies]`: no <cfg> component, no section
   | none => name
 
+/-- `rsplit_once(sep)`: the text before and after the LAST `sep` -/
+def rsplitOnceChar (sep : Char) (t : Text) : Option (Text × Text) :=
+  match (splitChar sep t).reverse with
+  | last :: (p :: ps) => some (intercalate [sep] (p :: ps).reverse, last)
+  | _ => none
+
+/-- `is_dependency_table` -/
+def cargoIsDepTable (name : Text) : Bool := strIn Generated.dependencyTables (cargoSection name)
+
+/-- `extract_package_from_subtable`: `[dependencies.serde]` with `version = "…"` inside — the table's pairs are read
+    like those of the inline form -/
+def cargoSubtable (content : Text) (dep : Text) (table : Node) : List PkgInfo :=
+  match cargoInlineVersion content table with
+  | none => []
+  | some (v, s, e, l, c) =>
+    [⟨match cargoInlinePackage content table with | some real => real | none => dep, v, none, s, e, l, c, none⟩]
+
 def cargoTable (content : Text) (table : Node) : List PkgInfo :=
   match tableName content table with
   | none => []
   | some name =>
-    if !strIn Generated.dependencyTables (cargoSection name) then []
-    else (table.children.filter (·.kind == "pair")).filterMap (cargoPair content)
+    if cargoIsDepTable name then (table.children.filter (·.kind == "pair")).filterMap (cargoPair content)
+    else match rsplitOnceChar '.' name with
+      | some (parent, dep) => if cargoIsDepTable parent then cargoSubtable content dep table else []
+      | none => []
 
 def cargoToml (content : Text) (tree : Node) : List PkgInfo :=
   (tree.children.filter (·.kind == "table")).flatMap (cargoTable content)
